@@ -6,13 +6,26 @@ from props import common
 def run(ctx):
     ctx.build_harness()
     q = ctx.tier == "quick"
-    common.replay_layer(ctx, "MC_Reporters.tla", "MC_Reporters_quick.cfg" if q else "MC_Reporters_thorough.cfg", "presentation-replay", "presentation",
-                        args={"stride": 6 if q else 1}, workers=10, heap="3g")
+    # Present.tla: the rendering of a report item under every flag combination, model-checked ...
+    ctx.tlc_must_pass("MC_Present.tla", "MC_Present_quick.cfg" if q else "MC_Present_thorough.cfg", workers=8, heap="3g", timeout=1800)
+    res = common.replay_layer(ctx, "MC_Reporters.tla", "MC_Reporters_quick.cfg" if q else "MC_Reporters_thorough.cfg", "presentation-replay", "presentation",
+                              args={"stride": 6 if q else 1}, workers=10, heap="3g")
+    # ... and bound to the real register by trace validation: the lines and fields of the real output under all 36 combinations
+    import os
+    cases = os.path.join(ctx.scratch, "presentation_cases.ndjson")
+    tr = os.path.join(ctx.scratch, "present_trace.ndjson")
+    mm = os.path.join(ctx.scratch, "present_trace_mm.ndjson")
+    r2 = ctx.drv("present-trace", infile=cases, outfile=mm, tracefile=tr, args={"stride": 40 if q else 4})
+    vlib.validate_traces(ctx, "Trace_Present.tla", "Trace_Present.cfg", tr, "present-trace-rejected", "cmd/hranoprovod-cli/internal/register", timeout=2400, heap="4g")
+    vlib.binding_selftest(ctx, "Trace_Present.tla", "Trace_Present.cfg", tr, [("amount-colour-changed", recolour), ("line-dropped", drop_line), ("name-cut-flag-flipped", flip_cut)])
+    ctx.add("evaluations", r2["runs"])
+    if not q:
+        vlib.vacuity_check(ctx, "MC_Present.tla", "MC_Present_quick.cfg")
     # collapse modes of the balance never change the amounts: Balance.tla ModesAgreeOnLeaves, replayed
     common.replay_layer(ctx, "MC_Balance.tla", "MC_Balance_quick.cfg", "balance-replay", "balance", workers=10, heap="3g")
     return vlib.finish(
         ctx, "model_checking",
-        rule="Reporters.tla fixes the records of the register (RegisterExact); for every enumerated log with names of 19, 20, 21, 26, 27, 28 and 40 "
+        rule="Present.tla: rendering of a report item by the default / left-aligned templates and the old reporter under colour x shorten x totals mode (SameRecords, Interleaved, StripIsPlain, ColourBySign, CutOnlyWhenTooLong, AppendOnly, StepIsRenderDay over every history of <= 1-2 days x 36 flag sets); the lines and fields of the real `reg` under all 36 combinations validated by TLC against Trace_Present.tla.  Reporters.tla fixes the records of the register (RegisterExact); for every enumerated log with names of 19, 20, 21, 26, 27, 28 and 40 "
              "runes (ASCII, accented, CJK, inner blanks) the register is produced under all 3 templates x shorten x {totals, --no-totals, "
              "--totals-only} x colour {--no-color global, --no-color on the sub-command, on} = 54 combinations: same records as the plain default "
              "rendering (= the specification's), shortened names keep a prefix and a suffix within the column, coloured = plain after removing escape "
@@ -20,6 +33,38 @@ def run(ctx):
              "modes via Balance.tla ModesAgreeOnLeaves; non-trivial = every replayed case",
         exhaustive=True, extra_cov=dict(),
         trusted=["row parsers of the three register renderings", "layout-only differences (the old reporter prints no TOTAL header for an empty day) are below the record abstraction on purpose"])
+
+
+def _amt_fields(tr):
+    for e in tr:
+        if e.get("ev") == "Day":
+            for ln in e["lines"]:
+                for f in ln["f"]:
+                    yield e, ln, f
+
+
+def recolour(tr):
+    for e, ln, f in _amt_fields(tr):
+        if f["t"] == "amt" and f["v"] != 0:
+            f["col"] = "green" if f["col"] != "green" else "red"
+            return tr
+    return None
+
+
+def drop_line(tr):
+    for e in tr:
+        if e.get("ev") == "Day" and len(e["lines"]) >= 2:
+            del e["lines"][-1]
+            return tr
+    return None
+
+
+def flip_cut(tr):
+    for e, ln, f in _amt_fields(tr):
+        if f["t"] == "name":
+            f["cut"] = not f["cut"]
+            return tr
+    return None
 
 
 def replay(ctx, path):
